@@ -1487,6 +1487,7 @@ class Interp:
             lst.items = None
 
     def check_mutable(self, obj, what):
+        self.stores_checked = getattr(self, "stores_checked", 0) + 1
         if getattr(obj, "fresh", True):
             return
         if id(obj) in self.modifies_ok:
@@ -1522,6 +1523,7 @@ class Interp:
             raise Unsupported(f"assignment target {type(t).__name__}")
 
     def set_attr(self, obj, name, v):
+        self.stores_checked = getattr(self, "stores_checked", 0) + 1
         if isinstance(obj, SObj):
             raw = self.class_lookup(obj.cls, name)
             if isinstance(raw, property):
